@@ -4,9 +4,11 @@ package main
 import (
 	"verif/vlib"
 
+	_ "verif/checks/cfgscope"
 	_ "verif/checks/histfile"
 	_ "verif/checks/jobs"
 	_ "verif/checks/scoping"
+	_ "verif/checks/structvars"
 )
 
 func main() { vlib.Main() }
